@@ -38,6 +38,11 @@ int main() {
             return 1;
         }
         if (before != node.session_key(claimed)) { std::printf("REPRODUCED: rejected handshake changed the session key\n"); return 1; }
+        // the very offer that was just rejected, repeated: still not admissible
+        if (node.perform_handshake(claimed, a.key, a.nonce)) {
+            std::printf("REPRODUCED: a handshake with %s was rejected and then ACCEPTED when repeated unchanged (key 0x%08x, nonce %llu: not a valid PoW)\n", a.what, a.key, static_cast<unsigned long long>(a.nonce));
+            return 1;
+        }
         // a rejection resets the stored record; make it a success again for the next attack
         std::this_thread::sleep_for(std::chrono::milliseconds(5));
         if (!node.perform_handshake(claimed, key1, nonce1)) { std::printf("the valid handshake was refused\n"); return 2; }
